@@ -785,6 +785,13 @@ func ruleSkipPredicate(c *chk.Ctx, f *ssa.Function, ap *ssa.Call) {
 	for _, p := range raw {
 		alts = append(alts, expandPredicateHelpers(c, p, 0)...)
 	}
+	if len(alts) == 0 && exits == 0 && ap.Parent() != f {
+		// the helper is called for every task and decides by itself whether to append: the
+		// bypasses are its own paths that return without reaching the append
+		for _, p := range ir.FunctionPathsAvoiding(ap.Parent(), ap.Block()) {
+			alts = append(alts, expandPredicateHelpers(c, p, 0)...)
+		}
+	}
 	if len(alts) != 1 || exits != 0 {
 		c.Fail("TABLE.skip", f, "skip predicate", ap.Pos(), "%d paths bypass the append in an iteration and %d leave the loop early (want exactly one bypass: notifications without a reportable error)", len(alts), exits)
 		return
@@ -1185,14 +1192,42 @@ func ruleSemSize(c *chk.Ctx) {
 	g := acc.Call.StaticCallee()
 	allOK := true
 	var why []string
+	// every way the result is produced: a return's value, or — when one variable collects the
+	// size and is converted at a single exit — each value flowing into it, with the outcomes
+	// along its edge
+	type sizeWay struct {
+		v     ssa.Value
+		conds []ir.Cond
+	}
+	var ways []sizeWay
 	for _, r := range ir.Returns(g) {
 		v := ir.ReturnResult(r, 0)
 		if cv, ok := v.(*ssa.Convert); ok {
 			v = cv.X
 		}
+		if phi, isPhi := v.(*ssa.Phi); isPhi {
+			for i, e := range phi.Edges {
+				pred := phi.Block().Preds[i]
+				if cv, ok := e.(*ssa.Convert); ok {
+					e = cv.X
+				}
+				ways = append(ways, sizeWay{e, append(append([]ir.Cond{}, ir.CondsAt(pred)...), ir.EdgeConds(pred, phi.Block())...)})
+			}
+			continue
+		}
+		ways = append(ways, sizeWay{v, ir.CondsAt(r.Block())})
+	}
+	for _, w := range ways {
+		v := w.v
 		if call, ok := v.(*ssa.Call); ok && ir.IsCallTo(&call.Call, "runtime.NumCPU") {
 			why = append(why, "NumCPU()")
 			continue
+		}
+		if cv, ok := v.(*ssa.Convert); ok {
+			if call, ok := cv.X.(*ssa.Call); ok && ir.IsCallTo(&call.Call, "runtime.NumCPU") {
+				why = append(why, "NumCPU()")
+				continue
+			}
 		}
 		if u, ok := v.(*ssa.UnOp); ok && u.Op == token.MUL {
 			if fa, ok := u.X.(*ssa.FieldAddr); ok {
@@ -1201,7 +1236,7 @@ func ruleSemSize(c *chk.Ctx) {
 				// (the guard may sit in a private predicate helper; every alternative under which
 				// the return is reached must establish it)
 				ge1 := true
-				alts := expandPredicateHelpers(c, ir.CondsAt(r.Block()), 0)
+				alts := expandPredicateHelpers(c, w.conds, 0)
 				if len(alts) == 0 {
 					ge1 = false
 				}
@@ -1472,7 +1507,16 @@ func ruleSingleDispatcher(c *chk.Ctx, d *dispatchModel) {
 		fmt.Sprintf("the dequeue site is reachable from %d go statement(s) and %d other entries: batches could be prepared out of order", len(gos), len(other)))
 	// prepare is called from the dequeuing function, after the Pop
 	for _, s := range c.P.Callers(d.prepare) {
-		c.Check(s.Caller == pf && ir.InstrDominates(pops[0].(*ssa.Call), s.Instr), "WHO.queue", s.Caller, "prepare follows dequeue", s.Instr.Pos(), "the prepare function is called right where the batch is dequeued", "the prepare function is called elsewhere than after the dequeue")
+		after := s.Caller == pf && ir.InstrDominates(pops[0].(*ssa.Call), s.Instr)
+		if !after {
+			// the dequeue may sit in a private helper called just before
+			for _, a := range anchorsIn(c, pops[0], s.Caller) {
+				if ir.InstrDominates(a, s.Instr) {
+					after = true
+				}
+			}
+		}
+		c.Check(after, "WHO.queue", s.Caller, "prepare follows dequeue", s.Instr.Pos(), "the prepare function is called right where the batch is dequeued", "the prepare function is called elsewhere than after the dequeue")
 	}
 	// D4: the batch runner executes in a goroutine of its own, tracked by the lifetime group: the
 	// nearest go statement above every call of the runner is tracked, and is not the dispatcher's
@@ -1688,6 +1732,71 @@ func ruleBatchFlagChain(c *chk.Ctx, d *dispatchModel) {
 			if isC && kk == '[' {
 				if call, isCall := other.(*ssa.Call); isCall && call.Call.StaticCallee() != nil && c.P.InRepo[call.Call.StaticCallee()] {
 					good, isPhi = true, false
+				}
+			}
+		}
+		// the flag may be one field of what a private envelope-splitting helper returns:
+		// then every successful return of the helper sets it true exactly on its array branch
+		if call, ri, fk, isRes := ir.StructFieldOrigin(val); isRes && !good {
+			g := call.Call.StaticCallee()
+			if g != nil && c.P.InRepo[g] && !ir.Exported(g) && len(g.Blocks) > 0 {
+				if fvs, known := ir.ResultFieldVals(g, ri, fk); known {
+					isPhi = false
+					good = true
+					nOK := 0
+					for _, fv := range fvs {
+						// (a return that also reports an error is not a successful one; the
+						// caller must not use the flag of such a return)
+						failed := false
+						for j := range fv.Ret.Results {
+							if j != ri && fv.Ret.Results[j].Type().String() == "error" && !ir.IsNilConst(ir.ReturnResult(fv.Ret, j)) {
+								failed = true
+							}
+						}
+						if failed {
+							guarded := false
+							for _, cd := range ir.CondsAt(st.Block()) {
+								if x, eq, isN := ir.NilCompare(cd.V); isN && eq == cd.Truth {
+									if e, isE := x.(*ssa.Extract); isE && e.Tuple == ssa.Value(call) {
+										guarded = true
+									}
+								}
+							}
+							if !guarded {
+								good, why = false, "the flag of a failed split is used"
+							}
+							continue
+						}
+						nOK++
+						isTrue := false
+						if !fv.Zero {
+							k, isK := fv.Val.(*ssa.Const)
+							if !isK || k.Value == nil {
+								good, why = false, "a non-constant value flows into the flag"
+								continue
+							}
+							isTrue = k.Value.String() == "true"
+						}
+						array := false
+						for _, cd := range ir.CondsAt(fv.Ret.Block()) {
+							if x, y, op, ok := ir.Rel(cd); ok && op == token.EQL {
+								kk, isC := ir.ConstInt(y)
+								if !isC {
+									kk, isC = ir.ConstInt(x)
+								}
+								if isC && kk == '[' {
+									array = true
+								}
+							}
+						}
+						if isTrue != array {
+							good = false
+							why = fmt.Sprintf("%s sets batch=%v on the %s branch", g.Name(), isTrue, map[bool]string{true: "array", false: "single-value"}[array])
+						}
+					}
+					if nOK < 2 {
+						good, why = false, "the splitting helper does not return both shapes"
+					}
 				}
 			}
 		}
@@ -1939,7 +2048,29 @@ func handlerValueOnlyFrom(c *chk.Ctx, h, fn *ssa.Function) bool {
 			}
 			found = true
 			if f != fn && !c.P.InExt(fn, f) {
-				ok = false
+				// made by a caller of the assign function only to be handed to it (the value the
+				// assign function returns for the built-in name)
+				handed := len(*mc.Referrers()) > 0
+				for _, ref := range *mc.Referrers() {
+					call, isCall := ref.(ssa.CallInstruction)
+					if !isCall {
+						handed = false
+						continue
+					}
+					callee := call.Common().StaticCallee()
+					isArg := false
+					for _, a := range call.Common().Args {
+						if a == ssa.Value(mc) {
+							isArg = true
+						}
+					}
+					if callee == nil || !isArg || (callee != fn && !c.P.InExt(fn, callee)) {
+						handed = false
+					}
+				}
+				if !handed {
+					ok = false
+				}
 			}
 		})
 	}
